@@ -213,6 +213,21 @@ pub fn check(s: &Scn, what: &str) -> Option<(String, String)> {
             }
         }
     }
+    if what == "c03" {
+        // forward and the six link poses against the independent product of elementary transforms (incl. |q| >> 2*pi)
+        let links = indep_links(&s.p, &s.q);
+        let f = r.forward(&s.q);
+        let (dt, da) = pose_err(&links[5], &f);
+        let scale = 1.0 + s.q.iter().fold(0.0f64, |a, b| a.max(b.abs()));
+        if dt > 1e-9 * scale || da > 1e-9 * scale { return Some((format!("forward differs from the OPW link chain by {:e} m / {:e} rad", dt, da), "equal to the product of the six elementary transforms".into())); }
+        let lp = r.forward_with_joint_poses(&s.q);
+        for i in 0..6 {
+            let (dt, da) = pose_err(&links[i], &lp[i]);
+            if dt > 1e-9 * scale || da > 1e-9 * scale { return Some((format!("link pose {} differs from the chain by {:e} m / {:e} rad", i + 1, dt, da), "chain_i".into())); }
+        }
+        let (dt, da) = pose_err(&lp[5], &f);
+        if dt > 1e-9 * scale || da > 1e-9 * scale { return Some(("forward differs from the last link pose".into(), "equal".into())); }
+    }
     if what == "c05" {
         let q5 = s.q[4] * s.p.sign_corrections[4] as f64 - s.p.offsets[4];
         let thr = 0.01f64.to_radians();
@@ -248,6 +263,11 @@ fn gen(rng: &mut Rng, what: &str, round: usize) -> Scn {
             let sgn = if rng.below(2) == 0 { 1.0 } else { -1.0 };
             let model = k * PI + sgn * band;
             q[4] = (model + p.offsets[4]) * p.sign_corrections[4] as f64;
+        }
+        "c03" => {
+            if round % 3 == 0 { q = rand_joints(rng, 400.0); }
+            if round % 4 == 1 { p.b = rng.range(-0.1, 0.1); p.a2 = rng.range(-0.2, 0.2); }
+            if round % 5 == 2 { p.dof = 5; p.sign_corrections[5] = 0; }
         }
         "c01" => {
             match round % 5 {
